@@ -1229,6 +1229,27 @@ func (h *c17Hist) opShutdown() error {
 	e := h.e
 	a := PickOne(h.p, h.provers)
 	creator := h.spell(a)
+	// prefer a registered provider that is currently LISTED on a file: its prover slots and proof records must stay
+	// consistent through the shutdown
+	if h.p.Chance(2, 3) {
+		var listed []string
+		files := e.App.StorageKeeper.GetAllFileByMerkle(e.Ctx)
+		for _, x := range h.provers {
+			s := x.String()
+			if _, ok := e.App.StorageKeeper.GetProviders(e.Ctx, s); !ok {
+				continue
+			}
+			for _, f := range files {
+				if f.ContainsProver(s) {
+					listed = append(listed, s)
+					break
+				}
+			}
+		}
+		if len(listed) > 0 {
+			creator = PickOne(h.p, listed)
+		}
+	}
 	_, existed := e.App.StorageKeeper.GetProviders(e.Ctx, creator)
 	msg := &storagetypes.MsgShutdownProvider{Creator: creator}
 	pre := h.cur
